@@ -7,7 +7,7 @@ CONSTANTS
   NBug = "none"
   NVSpace = "small"
   NCompoundV = "tiny"
-  NKinds = {"isinstance", "issubclass", "typeis", "typeguard", "is", "eq", "in", "truthy", "len", "cmp", "c_isinstance", "c_isvalue", "match", "matchseq", "not", "and", "or"}
+  NKinds = {"isinstance", "issubclass", "typeis", "typeguard", "is", "eq", "in", "truthy", "len", "cmp", "lenr", "c_isinstance", "c_isvalue", "match", "matchseq", "not", "and", "or"}
 INVARIANT EmitObjs
 INVARIANT EmitV
 INVARIANT EmitDone
